@@ -31,7 +31,9 @@ from . import common, machine_common as mc
 from .common import log
 
 EXE = "pvh_cinterop"
-CHAINS = "lli,native0,native1"
+ACTIVE = {"chains": "lli,native0,native1"}
+CHAINS = "lli,native0,native1"          # thorough tier
+QUICK_CHAINS = "lli,native1"        # quick tier: -O1 on the Penne IR exposes everything -O0 does
 NARROW = ("i8", "i16", "u8", "u16")
 
 
@@ -47,6 +49,14 @@ PROPOSED_KNOWN = [
      "match": {"kind": "cinterop-rejected", "regex": r"^viewlit \w+ (p2c|c2p|p2p) :: rejected panic=not-implemented( :: layout)?$"},
      "what": "an array literal as the argument for a view parameter of an `extern` function panics (`not implemented`, "
              "generate_autocoerce, arm View{EndlessArray} has no ArrayLiteral case)"},
+    {"property": "C01", "id": "C01-call-instruction-lacks-fastcc-of-callee", "status": "open",
+     "match": {"kind": "cinterop-output", "regex": r"^(scalar|mix) .* plain :: native1 :: penne->penne-fn \w+\([^)]*\) :: output$"},
+     "what": "call instructions never carry the calling convention of the callee: a `call` (C convention) of a `fastcc` function "
+             "(every non-extern fn) is undefined behaviour in LLVM; an optimising backend run (`penne build --backend-args -O1`) "
+             "deletes the call and what follows"},
+    {"property": "C01", "id": "C01-call-instruction-lacks-fastcc-of-callee", "status": "open",
+     "match": {"kind": "cinterop-run", "regex": r"^(scalar|mix) .* plain :: native1 :: (exit \d+|signal|hang)$"},
+     "what": "(same defect: the optimised program ends somewhere else)"},
 ]
 
 
@@ -77,7 +87,7 @@ def callee_shape(prog, name):
             return "penne->c %s[%s](%s)" % (name, f["lib"], ", ".join(ty_name(p["ty"]) for p in f["params"]))
     for f in prog["fns"]:
         if f["name"] == name:
-            return "penne->penne-extern %s(%s)" % (name, ", ".join(ty_name(p["ty"]) for p in f["params"]))
+            return "penne->penne-%s %s(%s)" % ("extern" if f.get("ext") else "fn", name, ", ".join(ty_name(p["ty"]) for p in f["params"]))
     return "penne->? " + name
 
 
@@ -95,10 +105,11 @@ def pick_key(pk):
 # ---------------------------------------------------------------------------
 # running programs
 # ---------------------------------------------------------------------------
-def run_programs(programs, layouts, seed, tag, chains=CHAINS):
+def run_programs(programs, layouts, seed, tag, chains=None):
     inp = os.path.join(common.WORK, "%s-%d-programs.ndjson" % (tag, os.getpid()))
     out = os.path.join(common.WORK, "%s-%d-results.ndjson" % (tag, os.getpid()))
     common.write_ndjson(inp, programs)
+    chains = ACTIVE["chains"] if chains is None else chains
     common.pvh(["run", inp, out, layouts, seed, chains], exe_name=EXE, timeout=3600)
     res = common.read_ndjson(out)
     if len(res) != len(programs):
@@ -126,7 +137,7 @@ def compile_signature(comp):
     return "rejected " + codes
 
 
-def check_dynamic(rep, key, prog, want, labels, res, stats):
+def check_dynamic(rep, key, prog, want, labels, res, stats, abi=None):
     """compare every chain of every layout of one program with the expectation `want` (list of printed lines);
     labels[i] = the function through which value i crossed the boundary"""
     base = res["results"][0]
@@ -139,6 +150,8 @@ def check_dynamic(rep, key, prog, want, labels, res, stats):
                           dict(detail0, problem="a well-formed program of the family is not compiled", compile=comp,
                                variant_source=x.get("source")))
             continue
+        if abi is not None and not layout:
+            check_abi(rep, key, abi, x, detail0, stats)
         for chain, o in x["chains"].items():
             stats["runs"] += 1
             if "stdout" not in o or "signal" in o:
@@ -172,6 +185,32 @@ def check_dynamic(rep, key, prog, want, labels, res, stats):
                               dict(detail0, problem="exit status", chain=chain, outcome=o))
 
 
+def check_abi(rep, key, abi, x, detail0, stats):
+    """the rule AbiRule of CInterop.tla on the IR the compiler wrote: C calling convention on the declaration / definition
+    and on every call of every foreign instance and `extern fn`; external visibility of what crosses the boundary"""
+    ir = x.get("ir") or {}
+    bad = {}
+    for a in abi:
+        f = (ir.get("fns") or {}).get(a["name"])
+        calls = (ir.get("calls") or {}).get(a["name"], [])
+        stats["abi"] += 1
+        if f is None:
+            if calls:
+                bad.setdefault("called but not declared", []).append(a["name"])
+            continue
+        if f["cc"] != a["cc"]:
+            bad.setdefault("%s with %s" % ("defined" if f["kind"] == "define" else "declared", f["cc"]), []).append(a["name"])
+        for cc in calls:
+            if cc != a["cc"]:
+                bad.setdefault("called with %s" % cc, []).append(a["name"])
+        if a["external"] and f["linkage"] != "external":
+            bad.setdefault("%s linkage" % f["linkage"], []).append(a["name"])
+    for what, names in bad.items():
+        rep.violation("cinterop-callconv", "%s :: %s" % (key, what),
+                      dict(detail0, problem="a function marked `extern` (or a declared C function) does not use the C calling convention / "
+                                            "is not visible to the other side in the generated IR", functions=names, ir=ir))
+
+
 def check_static(rep, key, case, res, stats):
     comp = res["results"][0]["compile"]
     stats["static"] += 1
@@ -192,13 +231,19 @@ def check_static(rep, key, case, res, stats):
                        "source": res["source"], "compile": comp})
 
 
-def check_cases(rep, cases, layouts, seed, tag, stats):
+def check_cases(rep, cases, layouts, seed, tag, stats, mix_layouts=None):
     dyn = [c for c in cases if c["verdict"] == "run"]
     sta = [c for c in cases if c["verdict"] != "run"]
-    results = run_programs([c["prog"] for c in dyn], layouts, seed, tag)
-    for c, r in zip(dyn, results):
-        want = [mc.shown(o["v"], o["t"]) for o in c["out"]]
-        check_dynamic(rep, pick_key(c["pick"]), c["prog"], want, [o["f"] for o in c["out"]], r, stats)
+    # (quick tier: the long parameter lists of the mix family run in the canonical layout only)
+    groups = [([c for c in dyn if c["pick"]["fam"] != "mix"], layouts, tag),
+              ([c for c in dyn if c["pick"]["fam"] == "mix"], mix_layouts or layouts, tag + "-mix")]
+    for group, lay, gtag in groups:
+        if not group:
+            continue
+        results = run_programs([c["prog"] for c in group], lay, seed, gtag)
+        for c, r in zip(group, results):
+            want = [mc.shown(o["v"], o["t"]) for o in c["out"]]
+            check_dynamic(rep, pick_key(c["pick"]), c["prog"], want, [o["f"] for o in c["out"]], r, stats, abi=c.get("abi"))
     if sta:
         results = run_programs([c["prog"] for c in sta], 1, seed, tag + "-static", chains="")
         for c, r in zip(sta, results):
@@ -281,7 +326,8 @@ def validate_trace(lines, tag, cfg):
 
 
 def part_random(rep, tier, seed, libtable, stats, selftests, want_selftest):
-    count = {"quick": 48, "thorough": 600}[tier]
+    t0r = time.time()
+    count = int(os.environ.get("CINTEROP_RANDOM", {"quick": 48, "thorough": 1000}[tier]))
     cfg = "Trace_CInterop.cfg"
     tag = "C01-cinterop-rnd"
     tpath = os.path.join(common.WORK, "%s-%d-libtable.json" % (tag, os.getpid()))
@@ -352,8 +398,8 @@ def part_random(rep, tier, seed, libtable, stats, selftests, want_selftest):
             if o.get("exit") != base.get("exit"):
                 rep.violation("cinterop-run", "random seed=%d index=%d :: %s :: exit %s" % (seed, i, chain, o.get("exit")),
                               {"problem": "exit status", "outcome": o, "source": r["source"], "csource": r["csource"]})
-    log("[trace] cinterop: %d random programs, %d traced, %d accepted by Trace_CInterop, %d trivial, %d rejected, %d not executable" %
-        (len(programs), len(programs) - len(direct), accepted, len(trivial), len(rejected), len(direct)))
+    log("[trace] cinterop: %d random programs, %d traced, %d accepted by Trace_CInterop, %d trivial, %d rejected, %d not executable, %.1fs" %
+        (len(programs), len(programs) - len(direct), accepted, len(trivial), len(rejected), len(direct), time.time() - t0r))
     if trivial and len(trivial) > len(programs) // 4:
         raise common.ToolError("cinterop generator: %d of %d programs are trivial (undefined behaviour): %s" %
                                (len(trivial), len(programs), list(trivial.items())[:3]))
@@ -390,6 +436,7 @@ def part_random(rep, tier, seed, libtable, stats, selftests, want_selftest):
 def run_part(rep, tier, seed, selftest):
     """-> coverage contribution {states, transitions, traces_validated, evaluations, distinct_nontrivial, samples, selftests, ...}"""
     t0 = time.time()
+    ACTIVE["chains"] = QUICK_CHAINS if tier == "quick" else CHAINS
     cfg = "MC_CInterop_%s.cfg" % tier
     r = common.tlc("MC_CInterop", cfg, workers=4, timeout=900, heap="4g", tag="C01-cinterop-%d" % os.getpid())
     if not r.ok:
@@ -409,11 +456,12 @@ def run_part(rep, tier, seed, selftest):
             or not {"accept", "E358", "reject"} <= set(c["verdict"] for c in sta):
         raise common.ToolError("MC_CInterop is vacuous: families %s, %d values with the top bit set, verdicts %s" %
                                (fams, top, sorted(set(c["verdict"] for c in sta))))
-    layouts = 2
-    stats = {"runs": 0, "comparisons": 0, "static": 0, "unconstrained": 0}
-    check_cases(rep, cases, layouts, seed, "C01-cinterop", stats)
-    log("[replay] cinterop: %d programs x chains {%s} (+%d layout variant), %d runs, %d value comparisons; %d static cells (%d unconstrained)" %
-        (len(dyn), CHAINS, layouts - 1, stats["runs"], stats["comparisons"], stats["static"], stats["unconstrained"]))
+    layouts = 2 if tier == "quick" else 3
+    stats = {"runs": 0, "comparisons": 0, "static": 0, "unconstrained": 0, "abi": 0}
+    t1 = time.time()
+    check_cases(rep, cases, layouts, seed, "C01-cinterop", stats, mix_layouts=1 if tier == "quick" else None)
+    log("[replay] cinterop: %d programs x chains {%s} (+%d layout variant), %d runs, %d value comparisons; %d static cells (%d unconstrained), %.1fs" %
+        (len(dyn), ACTIVE["chains"], layouts - 1, stats["runs"], stats["comparisons"], stats["static"], stats["unconstrained"], time.time() - t1))
     selftests = {}
     want_selftest = selftest or tier == "thorough"
     rnd = part_random(rep, tier, seed, libtable, stats, selftests, want_selftest)
@@ -429,10 +477,10 @@ def run_part(rep, tier, seed, selftest):
         flip2 = json.loads(json.dumps(next(c for c in sta if c["verdict"] == "accept")))
         flip2["verdict"] = "E358"
         with contextlib.redirect_stdout(buf):
-            check_cases(probe, [bad, flip, flip2], 1, seed, "C01-cinterop-selftest", {"runs": 0, "comparisons": 0, "static": 0, "unconstrained": 0})
+            check_cases(probe, [bad, flip, flip2], 1, seed, "C01-cinterop-selftest", {"runs": 0, "comparisons": 0, "static": 0, "unconstrained": 0, "abi": 0})
         kinds = [json.load(open(f))["kind"] for f in probe.violations if os.path.exists(f)]
-        # the corrupted value is reported once per chain (3), each flipped verdict once
-        selftests["cinterop_corrupted_expectation_detected"] = kinds.count("cinterop-output") >= 3
+        # the corrupted value is reported once per chain, each flipped verdict once
+        selftests["cinterop_corrupted_expectation_detected"] = kinds.count("cinterop-output") >= len(ACTIVE["chains"].split(","))
         selftests["cinterop_flipped_verdicts_detected"] = kinds.count("cinterop-static") == 2
         for f in probe.violations:
             if os.path.exists(f):
@@ -460,7 +508,7 @@ def run_part(rep, tier, seed, selftest):
         "selftests": selftests,
         "cinterop_programs": len(dyn), "cinterop_static_cells": len(sta), "cinterop_random_programs": rnd["programs"],
         "cinterop_random_trivial": rnd["trivial"], "cinterop_runs": stats["runs"], "cinterop_value_comparisons": stats["comparisons"],
-        "cinterop_chains": CHAINS,
+        "cinterop_chains": ACTIVE["chains"], "cinterop_abi_facts_checked": stats["abi"],
         "rule": "X: TLC enumerates the interoperability families of MC_CInterop (ABI integer type x boundary values with dirty upper "
                 "bits x call direction Penne->C / C->Penne through C trampolines / Penne->own extern fn; views of lengths 0..4, "
                 "buffers, pointers, pointers to pointers, mixed parameter lists, callbacks), runs Machine.tla on the program plus the "
